@@ -16,6 +16,11 @@ uint64_t refusals_left;
 #endif
 struct HX : public babylon::Executor {
   int invoke(Fn&& f) noexcept override {
+    if (VF_MODE == 3) {          // the first VF_REFUSE launches are refused, later ones run inline (deterministic fault schedule)
+      uint64_t left = __atomic_load_n(&refusals_left, __ATOMIC_RELAXED);
+      while (left > 0) { if (__atomic_compare_exchange_n(&refusals_left, &left, left - 1, false, __ATOMIC_RELAXED, __ATOMIC_RELAXED)) return -1; }
+      f(); return 0;
+    }
     if (VF_MODE == 2) {
       uint64_t left = __atomic_load_n(&refusals_left, __ATOMIC_RELAXED);
       if (left > 0 && (vf_nondet64() & 1)) { __atomic_store_n(&refusals_left, left - 1, __ATOMIC_RELAXED); return -1; }
@@ -35,6 +40,7 @@ HX hx;
 #define SIGNAL(i) __atomic_store_n(&flag[i], 1, __ATOMIC_RELEASE)
 #define AWAIT(i) vf_assume(__atomic_load_n(&flag[i], __ATOMIC_ACQUIRE) == 1)
 #define EXEC(k, v) do { ret[T][k] = (uint64_t)(int64_t)q->execute((uint64_t)(v)); } while (0)
+#define SIGNAL_ONLY(k) do { ret[T][k] = (uint64_t)(int64_t)q->signal_push_event(); } while (0)
 #define RUN_PARKED(k) do { vf_assume(__atomic_load_n(&parkflag[k], __ATOMIC_ACQUIRE) == 1); parked[k](); ran[k] = 1; } while (0)
 // a launched consumer does run eventually: the LATE thread starts after the listed threads finished and runs what is left
 #define LATE2(a, b) do { AWAIT(a); AWAIT(b); for (int k = 0; k < 3; ++k) if (__atomic_load_n(&parkflag[k], __ATOMIC_ACQUIRE) == 1 && ran[k] == 0) { parked[k](); ran[k] = 1; } } while (0)
